@@ -74,3 +74,28 @@ Definition goal_split_merge : Prop :=
     let snaps := map (fun r => pc_clients (fst r)) runs in
     let recorded := concat (map (fun p => select true (fst p) (snd (snd p))) (combine segments runs)) in
     cs_get k (cm_lookup (rep_receive [] snaps) a) = count_ka k a recorded.
+
+(* ---- the shared queue between workers and reporter ----
+   Conservation through the queue: after any history of publishes and drains, followed by a final
+   drain, every per-address sum over ALL published snapshots equals what the reporter merged plus
+   what force_push evicted — a snapshot is merged or evicted, never both, never neither. Nothing is
+   evicted when no more than `capacity` snapshots are published between two drains. *)
+Definition goal_queue_conservation : Prop :=
+  forall cap ops a k,
+    let '(q, merged, lost) := q_run (mksq cap []) [] [] (ops ++ [QDrain]) in
+    sq_items q = []
+    /\ cs_get k (cm_lookup merged a) + snap_sum k a lost = snap_sum k a (pushed_snaps ops).
+
+(* pushes since the last drain never exceed the capacity -> nothing is evicted *)
+Fixpoint within_capacity (cap pending : nat) (ops : list qop) : bool :=
+  match ops with
+  | [] => true
+  | QDrain :: r => within_capacity cap O r
+  | QPush [] :: r => within_capacity cap pending r
+  | QPush _ :: r => (S pending <=? cap)%nat && within_capacity cap (S pending) r
+  end.
+
+Definition goal_queue_lossless : Prop :=
+  forall cap ops,
+    within_capacity cap 0 ops = true ->
+    snd (q_run (mksq cap []) [] [] ops) = [].
